@@ -1,76 +1,66 @@
 import SigpyVerif.Model.Py
 import SigpyVerif.Model.Apply
 import SigpyVerif.Model.C09
+import SigpyVerif.Model.C17Base
 import SigpyVerif.Gen.EspiritFormulas
+import SigpyVerif.Gen.EspiritSteps
+import SigpyVerif.Gen.C14Power
 /-
-  C17 model: the post-processing of `sigpy.mri.app.EspiritCalib` as exact algebra, and the index map of
-  its calibration matrix.
+  C17 model: the per-voxel arithmetic of `sigpy.mri.app.EspiritCalib` and the index map of its calibration matrix.
 
-  * `COps α` is the record of scalar operations the code uses (`+ * conj abs ** 0.5 / >`).  The driver
-    instantiates it with Gaussian rationals (exact on Pythagorean inputs), `Props/C17.lean` with ℂ.
-  * `normalize`, `powerStep` (one `PowerMethod._update` at one voxel), `phaseRef`, `cropMask`, `output`
-    (`_output` at one voxel), `gram` (`AHA` at one voxel from the image-domain kernels).
+  * `COps α` (Model/C17Base.lean) is the record of scalar operations the code uses (`+ * conj abs ** 0.5 / >`).  The
+    driver instantiates it with Gaussian rationals (exact on Pythagorean inputs), `Props/C17*.lean` with ℂ.
+  * EVERY arithmetic step is a GENERATED definition (`Gen/EspiritSteps.lean`, regenerated from `EspiritCalib.__init__` /
+    `_output` on every check; fail-closed: a statement outside the translated subset is a broken obligation):
+    `normalize`, `forward` (`AHA @ x`), `gramTerm`, `initMps`, the `PowerMethod(forward, self.mps, norm_func=normalize,
+    max_iter=max_iter)` wiring (`pmOperator`, `pmStart`, `pmNormFunc`, `pmMaxIter`), `output` (the two `mps *= ...` of
+    `_output` in program order), the signature defaults.  The power iteration itself is the GENERATED
+    `Gen.C14.pmUpdate` / `pmInit` / `pmDone` (from `sigpy.alg.PowerMethod`), instantiated per voxel below.
+    This file only names them (`normalize`, `output`, `powerStep`, `powerRun`, `gram`) and supplies what numpy
+    broadcasting does to `y / self.max_eig` at one voxel (`voxOps.divS`: hand-written, compared with the real closures on
+    multi-voxel arrays by the correspondence).
   * `calibMat`: blocks (generated loop nests of block.py) → reshape → transpose → reshape.
-  Reference coil, crop comparison, norm exponents, Gram scaling come from `Gen.espirit*`.
+  Reference coil, crop comparison, norm exponents, Gram scaling also appear as `Gen.espirit*` (Gen/EspiritFormulas.lean).
 -/
 namespace SigpyVerif.C17
 open SigpyVerif
 
-structure COps (α : Type) where
-  zero : α
-  add : α → α → α
-  mul : α → α → α
-  conj : α → α
-  /-- `abs z` as a scalar -/
-  abs : α → α
-  /-- `r ** 0.5` of a non-negative real scalar -/
-  sqrt : α → α
-  div : α → α → α
-  /-- `a > b` on real scalars -/
-  gt : α → α → Bool
-  /-- `True → 1`, `False → 0` (numpy multiplies by the boolean mask) -/
-  ofBool : Bool → α
-
 variable {α : Type}
 
-def csum (o : COps α) (l : List α) : α := l.foldr o.add o.zero
+/-- `normalize` (generated): `sum(abs(x) ** 2, axis=coil) ** 0.5` at one voxel -/
+abbrev normalize (o : COps α) (x : List α) : α := Gen.Espirit.normalize o x
 
-/-- `abs(x) ** p` for the generated integer power `p` (2 in the source) -/
-def absPow (o : COps α) (z : α) : α :=
-  (List.replicate Gen.espiritNormPow.toNat (o.abs z)).foldr o.mul (o.ofBool true)
+/-- the array operations of `PowerMethod._update` at ONE voxel of the state `x[..., coil, 1]`: `norm_func(y)` has
+    shape `[..., 1, 1]`, so `y / self.max_eig` divides every coil of a voxel by that voxel's own number.
+    (`norm` is the `norm_func=None` branch of `_update`, which `EspiritCalib` never takes: `pmNormFunc = some _`.) -/
+def voxOps (o : COps α) : C14.PmOps (List α) α where
+  norm := Gen.Espirit.normalize o
+  divS := fun y s => y.map fun v => o.div v s
 
-/-- `normalize`: `sum(abs(x) ** 2, axis=coil) ** 0.5` at one voxel -/
-def normalize (o : COps α) (x : List α) : α :=
-  let s := csum o (x.map (absPow o))
-  if Gen.espiritNormRootIsHalf then o.sqrt s else s
+/-- per-voxel state of `EspiritCalib(...).alg` after `k` calls of `update()`: the GENERATED `PowerMethod` step iterated
+    from the GENERATED start vector, with the GENERATED operator and norm function -/
+def powerRun (o : COps α) (AHA : List (List α)) (numCoils : Nat) : Nat → C14.PmState (List α) α
+  | 0 => Gen.C14.pmInit (Gen.Espirit.pmStart o numCoils)
+  | k + 1 => Gen.C14.pmUpdate (voxOps o) (Gen.Espirit.pmOperator o AHA) (Gen.Espirit.pmNormFunc o) (powerRun o AHA numCoils k)
 
-/-- `forward`: `AHA @ x` at one voxel -/
-def matVec (o : COps α) (G : List (List α)) (x : List α) : List α :=
-  G.map fun row => csum o (List.zipWith o.mul row x)
+/-- `App.run()`: `while not alg.done(): alg.update()` performs `max(max_iter, 0)` updates (`Props/C14Power.pm_done_iff`),
+    then `_output()` reads `self.mps` (the array `alg.x` was constructed with and `copyto`'d into) and `alg.max_eig` -/
+def runState (o : COps α) (AHA : List (List α)) (numCoils : Nat) (maxIter : Int) : C14.PmState (List α) α :=
+  powerRun o AHA numCoils (Gen.Espirit.pmMaxIter maxIter).toNat
 
-/-- one `PowerMethod._update`: `y = A x; max_eig = norm(y); x = y / max_eig` -/
+/-- one `PowerMethod._update` from an arbitrary current vector: `(new x, new max_eig)` -/
 def powerStep (o : COps α) (G : List (List α)) (x : List α) : List α × α :=
-  let y := matVec o G x
-  let e := normalize o y
-  (y.map fun v => o.div v e, e)
+  let s := Gen.C14.pmUpdate (voxOps o) (Gen.Espirit.pmOperator o G) (Gen.Espirit.pmNormFunc o) (Gen.C14.pmInit x)
+  (s.x, match s.maxEig with | some e => e | none => o.zero)
 
-/-- `mps *= conj(mps[k] / abs(mps[k]))`, `k` the generated reference coil -/
-def phaseRef (o : COps α) (m : List α) : List α :=
-  let m0 := m.getD Gen.espiritRefCoil.toNat o.zero
-  let ph := o.conj (o.div m0 (o.abs m0))
-  m.map fun v => o.mul v ph
-
-/-- `mps *= max_eig > crop` with the comparison supplied (`keep`) -/
-def cropMask (o : COps α) (keep : Bool) (m : List α) : List α := m.map fun v => o.mul v (o.ofBool keep)
-
-/-- `_output` at one voxel -/
-def output (o : COps α) (keep : Bool) (m : List α) : List α := cropMask o keep (phaseRef o m)
+/-- `_output` at one voxel (generated) -/
+abbrev output (o : COps α) (keep : Bool) (m : List α) : List α := Gen.Espirit.output o keep m
 
 /-- image-domain Gram matrix at one voxel from the kernels' values `vs[k][coil]`:
-    `AHA[i][j] = scale * Σ_k v_k[i] * conj v_k[j]` -/
+    `AHA[i][j] = scale * Σ_k gramTerm v_k i j` (`gramTerm` generated: `v_k[i] * conj v_k[j]`) -/
 def gram (o : COps α) (scale : α) (vs : List (List α)) (nc : Nat) : List (List α) :=
   (List.range nc).map fun i => (List.range nc).map fun j =>
-    o.mul scale (csum o (vs.map fun v => o.mul (v.getD i o.zero) (o.conj (v.getD j o.zero))))
+    o.mul scale (csum o (vs.map fun v => Gen.Espirit.gramTerm o v i j))
 
 /-! ### calibration matrix -/
 
